@@ -34,18 +34,18 @@ CHECKS = [
         NOTE + "Not decided: 'the next solve equals a from-scratch solve' (solver correctness).",
         TECH, "DESIGN.md 4/C05"),
     chk("C06", "proof",
-        "Queries and single-entry edits of lib.c under contract at ghost indices (stored value is the value returned / the value given); unbounded where the loop does not read through an index map, otherwise map length capped (stated per group). Relocating and multi-entry edits as bounded groups against a dense reference view: ILLlib_chgcoef / getcoef (2-3 columns), ILLlib_delrows / delcols, ILLlib_chgsense / chgrange, ILLlib_addrow, and the symbol table (register / delete / lookup / index map) on fixed operation scenarios.",
+        "Queries and single-entry edits of lib.c under contract at ghost indices (stored value is the value returned / the value given); unbounded where the loop does not read through an index map, otherwise map length capped (stated per group). Relocating and multi-entry edits as bounded groups against a dense reference view: ILLlib_chgcoef / getcoef (2-3 columns), ILLlib_delrows / delcols, ILLlib_chgsense / chgrange, ILLlib_addrow, and the symbol table (register / delete / lookup / index map, string pool compaction) on fixed operation scenarios; ILLlp_rows_init (row-major copy) on a constructed pattern; the external / internal index mapping of ILLlib_solution.",
         NOTE, TECH, "DESIGN.md 4/C06"),
     chk("C07", "proof",
-        "Modular proofs (CBMC dfcc contract enforcement, symbolic array sizes up to 30000) that the functions under contract reject invalid arguments with a non-zero code and an empty frame (conditional assigns), with all pointer/bounds/overflow checks discharged.",
+        "Modular proofs (CBMC dfcc contract enforcement, symbolic array sizes up to 30000) that the functions under contract reject invalid arguments with a non-zero code and an empty frame (conditional assigns), with all pointer/bounds/overflow checks discharged; QSset_param / QSget_param over every parameter code and value (loop-free, full domain).",
         NOTE, TECH, "DESIGN.md 4/C07"),
     chk("C10", "other",
-        "Bounded contract check of the exact literal scanner mpq_EGlpNumReadStrXc and of ILLget_value on CONSTRUCTED well-formed literals (integers, decimals, exponent forms, signed, fractions p/q of such numbers): the whole literal is consumed and the value is exactly the rational it spells (computed independently by integer arithmetic); omitted coefficient is 1; a zero divisor is rejected. Bounds (digits, exponent) stated per group. Also bounded groups for value-level rules above the scanner: infinity spellings of bound values (LP and MPS), the MPS BOUNDS table with the implicit-bound rules (mps_set_bound, ILLraw_set_*, ILLraw_fill_in_bounds) against an independent reference, the MPS RANGES interpretation (transferRanges) and 'repeated terms add up' for the objective (transferObjective), the last two in exact integer arithmetic.",
-        NOTE + "Not decided: grammar-level rules (keyword spellings, comments, line structure, sections), repeated-term merging in constraint rows (buildMatrix: symbolic-size allocations exhaust the solver), the LP-format bound section parser, digit counts beyond the stated bound.",
+        "Bounded contract check of the exact literal scanner mpq_EGlpNumReadStrXc and of ILLget_value on CONSTRUCTED well-formed literals (integers, decimals, exponent forms, signed, fractions p/q of such numbers): the whole literal is consumed and the value is exactly the rational it spells (computed independently by integer arithmetic); omitted coefficient is 1; a zero divisor is rejected. Bounds (digits, exponent) stated per group. Also bounded groups for value-level rules above the scanner: infinity spellings of bound values (LP and MPS), the MPS BOUNDS table with the implicit-bound rules (mps_set_bound, ILLraw_set_*, ILLraw_fill_in_bounds) against an independent reference, the MPS RANGES interpretation (transferRanges) and 'repeated terms add up' for the objective (transferObjective), the last two in exact integer arithmetic; and the LP-format reader above the scanner with the scanner replaced by a token cursor: the constraint expression assembly (sign * coefficient, omitted coefficient 1), one constraint (sense, right-hand side), the bounds section against an independent reference parser of its grammar, the integer list, the objective-sense keyword in every letter case, and the section sequencer with the real keyword tests.",
+        NOTE + "Not decided: grammar-level rules (keyword spellings, comments, line structure, sections), repeated-term merging in constraint rows in general (buildMatrix: symbolic-size allocations exhaust the solver; one constructed shape is checked), objective / constraint names and generated row names, digit counts beyond the stated bound.",
         TECH, "DESIGN.md 4/C10"),
     chk("C11", "other",
-        "Per-function bounded contract checks of reader functions for every byte content of their (capacity-reduced) buffers: the literal scanner on arbitrary short strings (no division by zero, no out-of-bounds read), the three error formatters for every formatted length (no write outside the 256-byte buffer, error reaches the collector), next_line progress (consumes a line or sets eof). Also: twelve character-level scanners of the LP reader and five of the MPS reader on every line content of at most 4 bytes with arbitrary stale bytes behind the terminator (the cursor stays inside the line text; fields are terminated), the basis-file reader ILLlib_readbasis on every sequence of at most 4 records, transferRanges on N rows, the symbol table scenarios, the MPS section state machine (ILLread_mps, read_mps_section, read_mps_line_in_section and the name / objective-sense handlers) on every file of at most 3 lines (thorough tier) -- no row is added after an accepted RHS / RANGES header, no column after a BOUNDS header, handlers only in the first occurrence of a section --, the four MPS data-line handlers with every callee returning arbitrary results, and buildMatrix on one constructed shape (dropped column before a repeated term).",
-        NOTE + "Not decided: whole-file behaviour, compressed streams, reader functions not listed in the evidence; buffer capacity ILL_namebufsize is reduced from 131072 to 512 (16 for the character-level scanner groups) in the scratch copy for these groups (one #define line, must-fire); the section state machine of the LP parser (lp.c) is not under contract; special ordered sets in the reader are beyond the tool (tried, see DESIGN.md 9.2).",
+        "Per-function bounded contract checks of reader functions for every byte content of their (capacity-reduced) buffers: the literal scanner on arbitrary short strings (no division by zero, no out-of-bounds read), the three error formatters for every formatted length (no write outside the 256-byte buffer, error reaches the collector), next_line progress (consumes a line or sets eof). Also: twelve character-level scanners of the LP reader and five of the MPS reader on every line content of at most 4 bytes with arbitrary stale bytes behind the terminator (the cursor stays inside the line text; fields are terminated), the basis-file reader ILLlib_readbasis on every sequence of at most 4 records, transferRanges on N rows, the symbol table scenarios, the MPS section state machine (ILLread_mps, read_mps_section, read_mps_line_in_section and the name / objective-sense handlers) on every file of at most 3 lines (thorough tier) -- no row is added after an accepted RHS / RANGES header, no column after a BOUNDS header, handlers only in the first occurrence of a section --, the four MPS data-line handlers with every callee returning arbitrary results, buildMatrix on one constructed shape (dropped column before a repeated term), ILLcheck_rawlpdata / ILLraw_check_bounds, and the LP reader's expression, constraint, bounds, integer and section functions on every token stream within their bounds.",
+        NOTE + "Not decided: whole-file behaviour, compressed streams, reader functions not listed in the evidence; buffer capacity ILL_namebufsize is reduced from 131072 to 512 (16 for the character-level scanner groups) in the scratch copy for these groups (one #define line, must-fire); the LP section sequencer is checked with its section bodies stubbed (lp/sections); special ordered sets in the reader are beyond the tool (tried, see DESIGN.md 9.2).",
         TECH, "DESIGN.md 4/C11"),
     chk("C12", "other",
         "Verdict/plumbing layer only. (i) the exact verdict loops ILLfct_check_dfeasible / ILLfct_check_pfeasible under contract with inductive loop invariants (dfcc): FEASIBLE is answered only if no position violates the sign / bound condition (stated at a ghost position; position map capped at 64 entries); (ii) bounded contract checks of ILLbasis_load (status codes -> internal vstat/baz/nbaz/vindex, one basic variable per row position) and of QSload_basis / QSload_basis_array (well-formed bases accepted and stored entry by entry). (iii) ILLfct_compute_dz against its definition in exact arithmetic (bounded 2x2); (iv) ILLlib_getbasis under loop contracts (every returned status is the solver's status, through the column / row maps; maps capped at 64); (v) the plumbing of QSexact_basis_optimalstatus / QSexact_basis_dualstatus (basic solution recomputed for the basis under test, checks with tolerance zero, verdict taken from the flags), callees as arbitrary-result stubs; (vi) QSexact_verify: without the pre-step the exact dual test always runs on the caller's basis, a verdict 1 only comes from a passed exact test; (vii) QSexact_solver with the caller's in/out basis object: after rval 0 / OPTIMAL it holds every column and row status of the basis that passed the exact optimality test (bounded: 1 column, 2 rows).",
@@ -68,7 +68,7 @@ CHECKS = [
         NOTE + "Not decided: safety of functions not under contract (simplex, pricing, LU, presolve, writers, most of the readers), uninitialised-value flow through them, whole call sequences beyond what the well-formedness preconditions carry, and bit-identical reproducibility across processes (a property of two executions).",
         TECH, "DESIGN.md 4/C17"),
     chk("C18", "other",
-        "Bounded contract checks of object life cycles with CBMC's memory-leak check and a GMP model in which every initialised number owns a heap token: error memory create/add/free, solution cache alloc/free, basis alloc/export/free, QSread_and_load_basis on a problem that owns a basis, QSexact_basis_status discarding the stale cache (loop-free, callees stubbed), the output stream of QSwrite_prob closed exactly once, QSwrite_basis frees only its local conversion. Allocation failure is explored (malloc may return NULL). Also: the reader's intermediate problem (ILLfree_rawlpdata with the real pointer-world allocator, chunk capacity reduced), the basis-file reader on rejected files, QSexact_solver releasing every basis obtained during the precision ladder, QSexact_basis_optimalstatus / dualstatus releasing the stale cache, QSexact_verify releasing the pre-step's basis and copy, the MPS data-line handlers on every error position, the MPS reader's objective-name copy, ILLlpdata_free over special-ordered-set information, mpq_EGlpNumSet_mpf on zero.",
+        "Bounded contract checks of object life cycles with CBMC's memory-leak check and a GMP model in which every initialised number owns a heap token: error memory create/add/free, solution cache alloc/free, basis alloc/export/free, QSread_and_load_basis on a problem that owns a basis, QSexact_basis_status discarding the stale cache (loop-free, callees stubbed), the output stream of QSwrite_prob closed exactly once, QSwrite_basis frees only its local conversion. Allocation failure is explored (malloc may return NULL). Also: the reader's intermediate problem (ILLfree_rawlpdata with the real pointer-world allocator, chunk capacity reduced), the basis-file reader on rejected files, QSexact_solver releasing every basis obtained during the precision ladder, QSexact_basis_optimalstatus / dualstatus releasing the stale cache, QSexact_verify releasing the pre-step's basis and copy, the MPS data-line handlers on every error position, the MPS reader's objective-name copy, ILLlpdata_free over special-ordered-set information, mpq_EGlpNumSet_mpf on zero, QScreate_prob / QSfree_prob with every allocation allowed to fail, grab_basis and QSgrab_cache over stored objects of another shape, QSload_basis_and_row_norms_array over an old basis with norms, the literal scanner and the LP expression reader on every path.",
         NOTE + "Not decided: leaks inside functions not listed in the evidence (QScreate_prob/QSfree_prob over a populated problem, readers' parse-error paths, simplex, LU), the EGlib slab pool, GMP's own allocator.",
         TECH, "DESIGN.md 4/C18"),
     chk("C19", "other",
